@@ -27,12 +27,12 @@ func init() {
 		Run:            run,
 		MinEvaluations: map[string]int{"quick": 100000, "thorough": 1000000},
 		MinNontrivial:  map[string]int{"quick": 1000, "thorough": 10000},
-		RequiredObs:    []string{"finds_that_compressed_paths", "ops:Union", "ops:UnionBuffered", "ops:Find", "ops:FindBuffered", "views_checked"},
+		RequiredObs:    []string{"finds_that_compressed_paths", "ops:Union", "ops:UnionBuffered", "ops:Find", "ops:FindBuffered", "ops:view_on_the_live_value", "binomial_trees_under_every_labelling", "views_checked"},
 	})
 }
 
 type op struct {
-	kind byte // 'u' union, 'U' union buffered, 'f' find, 'F' find buffered
+	kind byte // 'u' union, 'U' union buffered, 'f' find, 'F' find buffered, 'v' a view (x: 0 Sets, 1 SmallestRep, 2 Roots, 3 String) called on the LIVE value
 	x, y int
 }
 
@@ -206,6 +206,32 @@ func (r *runner) runHistory(n int, ops []op, fullViews bool, bufCap func(step in
 			} else {
 				c.Obs("unions_of_already_joined", 1)
 			}
+		case 'v':
+			// a view called on the live value itself (views may flatten trees): the history goes on with what it leaves
+			c.Obs("ops:view_on_the_live_value", 1)
+			var pi *engine.PanicInfo
+			var got, want string
+			switch o.x {
+			case 0:
+				pi = c.Call(key, func() { got = fmt.Sprint(ds.Sets()) })
+				want = fmt.Sprint(m.sets())
+			case 1:
+				pi = c.Call(key, func() { got = fmt.Sprint(ds.SmallestRep()) })
+				want = fmt.Sprint([]int(m))
+			case 2:
+				pi = c.Call(key, func() { got = fmt.Sprint(len(ds.Roots())) })
+				want = fmt.Sprint(len(m.sets()))
+			default:
+				pi = c.Call(key, func() { _ = ds.String() })
+			}
+			if pi != nil {
+				c.Violation(key+"|panic", detail(step), pi.String(), "the view returns")
+				return false
+			}
+			if got != want {
+				c.Violation(key+"|view-on-live-value-wrong", detail(step), got, want)
+				return false
+			}
 		case 'f', 'F':
 			d := depthOf(ds, o.x)
 			c.ObsMax("chain_depth_before_find", d)
@@ -239,6 +265,9 @@ func (r *runner) runHistory(n int, ops []op, fullViews bool, bufCap func(step in
 		}
 		if !eqInts(after, []int(m)) {
 			what := "partition-wrong-after-union"
+			if o.kind == 'v' {
+				what = "view-changed-partition"
+			}
 			if o.kind == 'f' || o.kind == 'F' {
 				what = "lookup-changed-partition"
 				_ = before
@@ -274,6 +303,10 @@ func (r *runner) checkViews(key string, detail interface{}, ds disjoint.Set, m m
 		c.Violation(key+"|Sets", detail, fmt.Sprint(sets), fmt.Sprint(want))
 		return false
 	}
+	if after, pi := partitionOf(c, key+"|read-after-Sets", cp); pi != nil || !eqInts(after, []int(m)) {
+		c.Violation(key+"|Sets-changed-partition", detail, fmt.Sprintf("classes by Find after Sets: %v %v", after, pi), fmt.Sprint([]int(m)))
+		return false
+	}
 	cp = append(disjoint.Set(nil), ds...)
 	var sr []int
 	if pi := c.Call(key+"|SmallestRep", func() { sr = cp.SmallestRep() }); pi != nil {
@@ -282,6 +315,16 @@ func (r *runner) checkViews(key string, detail interface{}, ds disjoint.Set, m m
 	}
 	if !eqInts(sr, []int(m)) {
 		c.Violation(key+"|SmallestRep", detail, fmt.Sprint(sr), fmt.Sprint([]int(m)))
+		return false
+	}
+	// the value the view was called on still holds the same partition and gives the same answer again
+	if after, pi := partitionOf(c, key+"|read-after-SmallestRep", cp); pi != nil || !eqInts(after, []int(m)) {
+		c.Violation(key+"|SmallestRep-changed-partition", detail, fmt.Sprintf("classes by Find after SmallestRep: %v %v", after, pi), fmt.Sprint([]int(m)))
+		return false
+	}
+	var sr2 []int
+	if pi := c.Call(key+"|SmallestRep-again", func() { sr2 = cp.SmallestRep() }); pi != nil || !eqInts(sr2, []int(m)) {
+		c.Violation(key+"|SmallestRep-second-call", detail, fmt.Sprint(sr2, pi), fmt.Sprint([]int(m)))
 		return false
 	}
 	cp = append(disjoint.Set(nil), ds...)
@@ -359,6 +402,69 @@ func run(c *engine.Ctx) {
 		c.Obs(fmt.Sprintf("exhaustive:all histories of length<=%d over %d ops on n=%d", maxL, len(alphabet), n), 1)
 	}
 
+	// 1b. EVERY labelling of the deepest trees on 4 and 8 elements (binomial union order under all 24 / 40320 relabellings,
+	// both argument orders): views and lookups on deep trees whose vertices carry every possible arrangement of labels
+	// (which element is the root, where element 0 sits, which elements hang below it)
+	for _, lg := range []int{2, 3} {
+		n := 1 << uint(lg)
+		chunks := 1
+		if lg == 3 {
+			chunks = 16
+		}
+		for ch := 0; ch < chunks; ch++ {
+			lg, n, ch := lg, n, ch
+			c.Unit(fmt.Sprintf("binomial-all-labellings/lg=%d/%d", lg, ch), func() {
+				perm := make([]int, n)
+				for i := range perm {
+					perm[i] = i
+				}
+				idx := 0
+				var rec func(k int)
+				r := &runner{c: c, label: "binomial-all-labellings", keyPfx: fmt.Sprintf("binomial-all lg=%d", lg)}
+				rec = func(k int) {
+					if c.Stopped() {
+						return
+					}
+					if k == n {
+						idx++
+						if idx%chunks != ch {
+							return
+						}
+						for flip := 0; flip < 2; flip++ {
+							var ops []op
+							for s := 1; s < n; s *= 2 {
+								for b := 0; b+s < n; b += 2 * s {
+									x, y := perm[b], perm[b+s]
+									if flip == 1 {
+										x, y = y, x
+									}
+									ops = append(ops, op{'u', x, y})
+								}
+							}
+							// a view on the live value, then lookups of everything, then the views again
+							ops = append(ops, op{'v', (idx + flip) % 4, 0})
+							for i := 0; i < n; i++ {
+								ops = append(ops, op{'f', perm[(i*3+idx)%n], 0})
+							}
+							r.keyPfx = fmt.Sprintf("binomial-all lg=%d perm=%v flip=%d", lg, perm, flip)
+							r.runHistory(n, ops, false, func(step int) int { return 1 })
+							// and with the views checked (on copies) right after the unions, before anything was looked up
+							r.runHistory(n, ops[:n-1], false, func(step int) int { return 1 })
+						}
+						c.Obs("binomial_trees_under_every_labelling", 1)
+						return
+					}
+					for i := k; i < n; i++ {
+						perm[k], perm[i] = perm[i], perm[k]
+						rec(k + 1)
+						perm[k], perm[i] = perm[i], perm[k]
+					}
+				}
+				rec(0)
+			})
+		}
+	}
+
 	// 2. union orders that build deep trees before the first find
 	// (binomial-tree order: equal ranks merge, so depth grows by one per
 	// round), then finds from the deepest leaves; all 4 variants of ops.
@@ -433,6 +539,10 @@ func run(c *engine.Ctx) {
 					y := rg.Intn(n)
 					if local && n > 8 {
 						y = (x + 1 + rg.Intn(4)) % n
+					}
+					if rg.Bool(0.08) {
+						ops = append(ops, op{'v', rg.Intn(4), 0})
+						continue
 					}
 					if rg.Bool(pFind) {
 						k := byte('f')
